@@ -1263,6 +1263,17 @@ class Evaluator:
                 names = [".".join(dotted_parts(e) or ["?"]) for e in h.type.elts]
             else:
                 names = [".".join(dotted_parts(h.type) or ["?"])]
+            if h.type is not None and not isinstance(h.type, ast.Tuple):
+                p0_ = dotted_parts(h.type)
+                if p0_ and (p0_[0] in fr.env or len(p0_) > 1) and not (len(p0_) == 1 and p0_[0][:1].isupper()):
+                    # `except self.rejections:` / `except ERRORS:` -- the handler's exception classes are a value: evaluated
+                    try:
+                        v_ = self.expr(h.type, fr)
+                    except Exception:
+                        v_ = None
+                    vs_ = list(v_) if isinstance(v_, (tuple, list)) else [v_]
+                    if vs_ and all(isinstance(x_, T) and x_.op == "ext" for x_ in vs_):
+                        names = [x_.args[0][9:] if x_.args[0].startswith("builtins.") else x_.args[0] for x_ in vs_]
             handled.append((h, names))
         fr.trystack.append([n for _, ns in handled for n in ns])
         pre_env = clone(fr.env)
@@ -2071,6 +2082,13 @@ class Evaluator:
             if attr in base.fields:
                 return base.fields[attr]
             meths, assigns = self.class_members(base.modname, base.cls)
+            own_ = self.prog.modules[base.modname].classnodes.get(base.cls) if base.modname in self.prog.modules else None
+            if own_ is not None and attr in meths and attr not in self.prog.modules[base.modname].classes.get(base.cls, {}):
+                # a name the object's own class binds at class level shadows a method / property it inherits
+                own_assigns = [(base.modname, st_) for st_ in own_.body if isinstance(st_, (ast.Assign, ast.AnnAssign))]
+                cv_ = self._class_level_value(own_assigns, attr)
+                if cv_ is not NotImplemented:
+                    return cv_
             if attr in meths:
                 decos = {ast.unparse(d) for d in meths[attr].node.decorator_list}
                 if "property" in decos or "functools.cached_property" in decos or "cached_property" in decos:
@@ -2631,7 +2649,58 @@ class Evaluator:
         return tm.mapt(tm._fz(b), it, None if c is True else c, tm.LIST if kind in ("list", "gen") else tm.DICT)
 
     # ---- calls
+    def _next_of_genexp(self, e, fr):
+        """next(ELT for x in SEQ if COND[, default]) over a sequence of known elements: the first element whose condition holds --
+        an ite chain when some conditions are not decided; none holding is the default, or StopIteration (an exit of the function
+        under "none holds"). NotImplemented when the call is not of that shape."""
+        g = e.args[0]
+        if len(g.generators) != 1 or g.generators[0].is_async or e.keywords or len(e.args) > 2:
+            return NotImplemented
+        gen = g.generators[0]
+        sub = fr.fork()
+        it = self.expr(gen.iter, sub)
+        if isinstance(it, T) and it.op == "classref" and self.enum_iter(it) is not None:
+            it = self.enum_iter(it)
+        if isinstance(it, _Obj) and not it.tuple_like:
+            it = self.obj_iter(it, gen.iter, sub)
+        seq = _concrete_iter(it) if it is not None and not isinstance(it, (str, bytes, dict)) else None
+        if seq is None or len(seq) > 64:
+            return NotImplemented
+        found = []
+        for x in seq:
+            self.assign(gen.target, x, sub)
+            c = tm.land([self.decide(self.truth_expr(c_, sub)) for c_ in gen.ifs])
+            if c is False:
+                continue
+            found.append((c, self.expr(g.elt, sub)))
+            if c is True:
+                break
+        if found and found[-1][0] is True:
+            out = found[-1][1]
+            rest = found[:-1]
+        else:
+            conds = tm.lor([c for c, _v in found]) if found else False
+            if len(e.args) == 2:
+                out = self.expr(e.args[1], fr)
+            else:
+                f2 = fr.fork(tm.lnot(conds))
+                f2.summary.exits.append(Exit(f2.guard, "raise", None, e, fr.fi.qualname if fr.fi else "<module>", exc="StopIteration", facts=fr.facts))
+                if not found:
+                    return T("raise", ("StopIteration",))
+                fr.facts.append(conds)
+                out = found[-1][1]
+                found = found[:-1]
+            rest = found
+        for c, v in reversed(rest):
+            out = v if tm.veq(v, out) else tm.ite(c, v, out)
+        return out
+
     def e_Call(self, e, fr):
+        if isinstance(e.func, ast.Name) and e.func.id == "next" and "next" not in fr.env and e.args and isinstance(e.args[0], ast.GeneratorExp) and \
+                e.args[0].generators[0].ifs and self.prog.lookup(fr.modname, "next") is None:
+            r_ = self._next_of_genexp(e, fr)
+            if r_ is not NotImplemented:
+                return r_
         pos = []
         for a in e.args:
             if isinstance(a, ast.Starred):
@@ -3810,6 +3879,8 @@ class Evaluator:
                 except (ValueError, TypeError):
                     pass
             return T("fmt", (tm._fz(a0), pos[1] if len(pos) > 1 else None, -1), tm.STR)
+        if n == "type" and len(pos) == 1 and isinstance(a0, (_Obj, _EnumInt, _EnumStr)):
+            return T("classref", (a0.modname + "." + a0.cls,))  # type(obj) of an object of a package class: that class
         if n == "type":
             t = tm.tyof(a0)
             if t != tm.ANY and (not (isinstance(a0, T) and a0.op == "param") or getattr(self, "typed_params", False)):
